@@ -152,14 +152,18 @@ func (g *gen) selectStmt(depth int, top bool) string {
 		}
 	}
 	if g.chance("fill", 30) {
-		f := rapid.SampledFrom([]string{"null", "none", "previous", "linear", "0", "5", "-3", "2.5", "-0.25", "1000000", "100.0"}).Draw(g.t, "fillv")
+		f := rapid.SampledFrom([]string{"null", "none", "previous", "linear", "0", "5", "-3", "2.5", "-0.25", "1000000", "0.125", "99.5", "100.0"}).Draw(g.t, "fillv")
 		sb.WriteString(" fill(" + f + ")")
 	}
 	if g.chance("orderby", 30) {
 		n := rapid.IntRange(1, 2).Draw(g.t, "nsort")
 		fs := make([]string, n)
 		for i := range fs {
-			fs[i] = g.identText(g.identValue()) + rapid.SampledFrom([]string{"", " ASC", " DESC", " desc"}).Draw(g.t, "dir")
+			name := rapid.SampledFrom(bareIdents).Draw(g.t, "sortName")
+			if g.chance("oddSortName", 12) {
+				name = g.identText(g.identValue())
+			}
+			fs[i] = name + rapid.SampledFrom([]string{"", " ASC", " DESC", " desc"}).Draw(g.t, "dir")
 		}
 		sb.WriteString(" ORDER BY " + strings.Join(fs, ", "))
 	}
